@@ -294,6 +294,9 @@ def gen_case(prop, tier, seed, stream, k):
         if stream == "medium":
             cfg["entry"] = rnd.choice(["exact-primal", "exact-dual", "exact-dual", "opt_dual"])
             cfg["maxit"] = None
+        if stream == "knife" and rnd.random() < 0.6:
+            cfg["entry"] = rnd.choice(["exact-primal", "exact-dual"])
+            cfg["maxit"] = None
         if stream == "big":
             cfg["entry"] = rnd.choice(["exact-primal", "exact-primal", "exact-dual", "exact-dual", "opt_primal", "opt_dual"])
             cfg["maxit"] = None
@@ -345,7 +348,7 @@ def plan(prop, tier):
     if prop == "C01":
         n = 90 if q else 5000
         P = [(f, n) for f in ["small-rand", "small-int", "degenerate", "illcond", "thin", "planted-opt", "tiny"]]
-        P.append(("knife", 150 if q else 6000))
+        P.append(("knife", 450 if q else 12000))
         P.append(("medium", 8 if q else 300))
         P.append(("big", 24 if q else 800))
         return P
